@@ -46,12 +46,64 @@ def _full_cases(max_size=10):
     return st.fixed_dictionaries(dict(
     s=gen.score_sets(min_pos=1, min_neg=1, max_size=max_size,
                      modes=("grid", "grid", "grid", "int", "dyadic", "float", "ulp", "distinct"), huge_easy=True, containers=("f64", "f64", "f32", "list", "neg-int", "pos-int", "neg-f32", "f128", "series")),
-    int_limits=st.booleans()))
+    int_limits=st.booleans(),
+    # the largest finite float as a score (a sentinel), possibly in both classes
+    sentinel=st.sampled_from([None, None, None, "low", "high", "both", "high-tie", "low-tie"]),
+    # one class in single precision, the other in double precision one float64 step next to it
+    mixed_ulp=st.one_of(st.none(), st.none(), st.fixed_dictionaries(dict(
+        coarse=st.sampled_from(["pos", "neg"]), vals=st.lists(st.integers(-64, 64), min_size=1, max_size=5, unique=True),
+        steps=st.lists(st.sampled_from([-1, 1, 2, -2]), min_size=1, max_size=5),
+        extra=st.lists(st.integers(-64, 64), min_size=0, max_size=3))))))
+
+
+def _mixed_precision_objects(mu, ep, en):
+    """(factory(sc, ec) -> Scores, pos values, neg values): the coarse class holds k/64 in float32, the
+    fine class holds float64 values one or two steps away from them (all distinct, no ties)."""
+    import math as _m
+
+    from score_analysis import Scores
+
+    coarse = [k / 64 for k in mu["vals"]]
+    fine = []
+    for v, st_ in zip(coarse, mu["steps"]):
+        x = v
+        for _ in range(abs(st_)):
+            x = _m.nextafter(x, _m.inf if st_ > 0 else -_m.inf)
+        fine.append(x)
+    fine += [k / 64 + 1 / 256 for k in mu["extra"]]
+    fine = sorted(set(fine) - set(coarse))
+    if not fine:
+        return None
+    c_arr, f_arr = np.asarray(coarse, dtype=np.float32), np.asarray(fine, dtype=np.float64)
+    pos, neg = (coarse, fine) if mu["coarse"] == "pos" else (fine, coarse)
+    pa, na = (c_arr, f_arr) if mu["coarse"] == "pos" else (f_arr, c_arr)
+    return (lambda sc, ec: Scores(pa, na, nb_easy_pos=ep, nb_easy_neg=en, score_class=sc, equal_class=ec)), pos, neg
 
 
 def check_full(case):
     s = case["s"]
+    if case.get("sentinel"):
+        from .c03 import _with_sentinels
+
+        kind = case["sentinel"]
+        s, _ = _with_sentinels(s, kind.split("-")[0])
+        if kind.endswith("-tie") and s["pos"] and s["neg"]:
+            # ... present in both classes (a cross-class tie at the very end of the score range)
+            ext = (max if kind.startswith("high") else min)(s["pos"] + s["neg"])
+            if abs(ext) > 1e300:
+                s = dict(s, pos=list(s["pos"]) + [ext], neg=list(s["neg"]) + [ext])
     pos, neg, ep, en = s["pos"], s["neg"], s["ep"], s["en"]
+    mu = case.get("mixed_ulp")
+    if mu and ep < 2**31 and en < 2**31:
+        built = _mixed_precision_objects(mu, ep, en)
+        if built:
+            mk, mpos, mneg = built
+            for sc, ec in CONFIGS:
+                got = float(mk(sc, ec).auc())
+                ref = mann_whitney(mpos, mneg, sc, ep, en)
+                require(abs(got - float(ref)) <= 1e-12, "auc:mann-whitney",
+                        lambda: f"config={sc}/{ec} float32 {mu['coarse']} class next to float64 values one step away: "
+                                f"pos={mpos} neg={mneg} ep={ep} en={en}: auc()={got!r}, Mann-Whitney={float(ref)!r}")
     cross = bool(set(map(float, pos)) & set(map(float, neg)))
     for sc, ec in CONFIGS:
         # the default limits, or the same limits written as Python integers
@@ -66,6 +118,10 @@ def check_full(case):
     lo_p, hi_p, lo_n, hi_n = min(pos), max(pos), min(neg), max(neg)
     overlap = not (lo_p > hi_n or hi_p < lo_n)
     labels = [f"mode:{s['mode']}", f"container:{s.get('container')}"]
+    if case.get("sentinel"):
+        labels.append(f"sentinel:{case['sentinel']}")
+    if mu:
+        labels.append("mixed-precision-neighbours")
     if case.get("int_limits"):
         labels.append("integer-limits")
     if cross:
